@@ -64,7 +64,7 @@ class Builder:
         return f"{self.prefix}{self.n}"
 
 
-def contract_route(rng, b, tensors, one_at_a_time=0.3, pretranspose=0.3, kind="fermionic"):
+def contract_route(rng, b, tensors, one_at_a_time=0.3, pretranspose=0.3, kind="fermionic", scalar_last=False):
     """tensors: list of (register, legs).  Emits steps contracting everything; returns
     (register, legs) of the result (legs in route-dependent order)."""
     ts = [(r, list(l)) for r, l in tensors]
@@ -91,11 +91,12 @@ def contract_route(rng, b, tensors, one_at_a_time=0.3, pretranspose=0.3, kind="f
         axes_a = [la.index(l) for l in shared]
         axes_b = [lb.index(l) for l in shared]
         out = b.reg()
-        b.steps.append({"op": "tensordot", "in": [ra, rb], "out": [out],
-                        "args": {"axes": [axes_a, axes_b], "preserve_array": True,
-                                 "mode": rng.choice(["auto", "fused", "blockwise"])},
-                        "entry": "symmray"})
         legs = [l for l in la if l not in shared] + [l for l in lb if l not in shared]
+        targs = {"axes": [axes_a, axes_b], "preserve_array": True, "mode": rng.choice(["auto", "fused", "blockwise"])}
+        if scalar_last and len(ts) == 2 and not legs and not defer:
+            # the closing contraction of a closed network: let the library return the plain number
+            del targs["preserve_array"]
+        b.steps.append({"op": "tensordot", "in": [ra, rb], "out": [out], "args": targs, "entry": "symmray"})
         if defer:
             # the remaining shared legs now appear twice on the result: trace them with einsum
             codes = {}
@@ -176,7 +177,7 @@ def norm_programs(seed, n, syms=gen.SYMS, shapes=("pair", "chain3", "triangle"),
         for r in range(2):
             b = Builder(f"n{r}_")
             order = bras + kets if r == 0 else kets + bras
-            reg, legs = contract_route(rng, b, order, pretranspose=0.2)
+            reg, legs = contract_route(rng, b, order, pretranspose=0.2, scalar_last=(r == 1))
             steps += b.steps
             steps.append(rel("norm2", "C10.network_norm", reg, preg))
         progs.append({"tid": tids(), "inputs": inputs, "steps": steps})
